@@ -57,7 +57,7 @@ def run(ctx):
     cov["executions_with_colliding_client_addresses"] = int(ctx.counters.get("colliding_client_addresses", 0))
     cov["states"] += 0
     cov["transitions"] += seq_trans
-    return ctx.finish("model_checking", cov, ["real kernel socket-pair, loopback TCP and epoll readiness in the sequential parts; the TCP part needs the privilege to create a network namespace and reports tcp_part_explored=false without it; host-name resolution (the Future-based resolver) is not exercised",
+    return ctx.finish("model_checking", cov, ["real kernel socket-pair, loopback TCP and epoll readiness in the sequential parts; the TCP part needs the privilege to create a network namespace and reports tcp_part_explored=false without it; host-name resolution runs against a getaddrinfo model that knows no name (every connect(host) ends in onAbolished)",
                                               "a callback that removes a client hands back no callback object; zero timer intervals are excluded"],
                       tags=["C14", "deadlock", "livelock", "horizon", "primitive", "memory"])
 
